@@ -5,9 +5,13 @@ package sut
 
 import (
 	"fmt"
+	"go/ast"
+	"go/parser"
+	"go/token"
 	"io/fs"
 	"os"
 	"path/filepath"
+	"strings"
 
 	"verifsim/internal/rewrite"
 	"verifsim/internal/scratch"
@@ -21,6 +25,7 @@ type Gocc struct {
 	Copy     string // scratch copy of the repository
 	Real     string // path of the uninstrumented binary
 	Sim      string // path of the instrumented binary ("" if not built)
+	Race     string // path of the uninstrumented binary built with -race ("" unless gocc has go statements)
 	Census   *rewrite.Census
 	RepoPath string
 }
@@ -50,6 +55,15 @@ func BuildGocc(root string, withSim bool) (*Gocc, error) {
 	}
 	if !withSim {
 		return g, nil
+	}
+	// gocc has no goroutines today.  If the tree has gained some, also build the
+	// uninstrumented binary with the race detector (used by C11 as an observation
+	// of real parallel execution, which a cooperative scheduler cannot reproduce).
+	if hasGoStatements(g.Copy) {
+		g.Race = filepath.Join(bin, "gocc-race")
+		if err := scratch.GoBuild(g.Copy, g.Race, ".", "-race"); err != nil {
+			return nil, err
+		}
 	}
 	redirect := map[string]string{}
 	for std, name := range map[string]string{"os": "simos", "time": "simtime", "math/rand": "simrand", "math/rand/v2": "simrand2", "crypto/rand": "simcrand", "io/ioutil": "simioutil"} {
@@ -92,4 +106,37 @@ func BuildGocc(root string, withSim bool) (*Gocc, error) {
 		return nil, fmt.Errorf("instrumented copy does not build (harness problem): %w", err)
 	}
 	return g, nil
+}
+
+// hasGoStatements scans gocc's own non-test sources (not example/, not tests) for a go statement.
+func hasGoStatements(root string) bool {
+	found := false
+	filepath.WalkDir(root, func(p string, d fs.DirEntry, err error) error {
+		if err != nil || found {
+			return nil
+		}
+		rel, _ := filepath.Rel(root, p)
+		if d.IsDir() {
+			if rel == "example" || rel == "doc" || strings.HasPrefix(rel, filepath.Join("internal", "test")) || strings.HasPrefix(rel, filepath.Join("internal", "verifsim")) {
+				return filepath.SkipDir
+			}
+			return nil
+		}
+		if !strings.HasSuffix(p, ".go") || strings.HasSuffix(p, "_test.go") {
+			return nil
+		}
+		fset := token.NewFileSet()
+		f, err := parser.ParseFile(fset, p, nil, 0)
+		if err != nil {
+			return nil
+		}
+		ast.Inspect(f, func(n ast.Node) bool {
+			if _, ok := n.(*ast.GoStmt); ok {
+				found = true
+			}
+			return !found
+		})
+		return nil
+	})
+	return found
 }
